@@ -20,8 +20,8 @@ CHECKS["C25"] = dict(
     technique="TLA+ model of the blocklist (entry = timestamp + duration, max-merge on Add, lazy expiry) checked by TLC against the "
               "statement written over the request history; TLC-generated histories replayed on the real blocklist over both state "
               "stores with a driver-controlled clock; recorded trace judged by the TLA+ trace spec",
-    level_text="TLC exhausts the Blocklist model (2 peers, durations {0,1,3,10}, clock steps {1,2,5}, clock <= 5; thorough: 5 durations, "
-               "4 steps, clock <= 9) for the envelope invariants and the never-shortens action property, and generates one history "
+    level_text="TLC exhausts the Blocklist model (2 peers, durations {0,1,3,10}, clock steps {1,2,5}, clock <= 5; thorough: steps {1,2,3,5}, "
+               "clock <= 8) for the envelope invariants and the never-shortens action property, and generates one history "
                "per (mechanism state, call) edge plus random walks; each history is run on blocklist.Blocklist over statestore/leveldb "
                "(in memory) and statestore/mock, and BlocklistTrace.tla judges every call result and, after every call, the answer "
                "of Exists at 17 instants from now to far in the future",
